@@ -31,5 +31,11 @@ func (pass *Omit) processSchema(schema *ast.Schema) *ast.Schema {
 		return true
 	})
 
+	// the entry point can not designate an omitted object
+	if schema.EntryPoint != "" && !schema.HasObject(schema.EntryPoint) {
+		schema.EntryPoint = ""
+		schema.EntryPointType = ast.Type{}
+	}
+
 	return schema
 }
